@@ -101,6 +101,21 @@ def c18_2(ctx):
         elif any(isinstance(r, ast.Return) and N(r.value) == 'self.value' for r in h.body):
             ctx.fail(f, h, 'the fallback object itself is returned (no copy): a mutable fallback such as the [] of try_list is shared between calls, so a caller who edits one result changes what the next failing call returns',
                      witness='g = try_list(f); g(bad).append(1); g(bad) == [1]')
+    # "returns the fallback exactly when f raises": nothing in the handler may raise itself before the fallback is returned
+    for name in ('try_value', 'try_back'):
+        g = ctx.repo.fn('_decorators:%s.wrapped' % name)
+        for tr in [x for x in ast.walk(g.node) if isinstance(x, ast.Try)]:
+            for h in tr.handlers:
+                ctx.count(1, g.where(h))
+                ev = h.name
+                for st in h.body:
+                    if isinstance(st, ast.Return):
+                        break
+                    for n in ast.walk(st):
+                        if isinstance(n, ast.Subscript) or (isinstance(n, ast.Attribute) and isinstance(n.value, ast.Name) and n.value.id == ev) or isinstance(n, ast.Raise):
+                            ctx.fail(g, st, 'the handler of %s evaluates `%s` before returning the fallback: that can raise (an exception without args, a missing key), and the wrapper then propagates an error instead of its fallback' % (name, U(n)),
+                                     witness='try_value(f, verbose=True) with f raising a bare ValueError()')
+                            break
     f = ctx.repo.fn('_decorators:try_back.wrapped')
     _try_shape(ctx, f, None)
     t = [x for x in ast.walk(f.node) if isinstance(x, ast.Try)]
@@ -166,6 +181,10 @@ def c18_4(ctx):
             ctx.fail(f, loops[0], 'a same-type wrapper deeper in the chain is not spliced out')
         elif not any(isinstance(a, ast.Assign) and U(a.targets[0]) == 'f' and N(a.value) == 'f.function' for a in else_of(inner[0])):
             ctx.fail(f, loops[0], 'the walk down the chain does not advance')
+    ctx.count(1)
+    if not any(isinstance(x, ast.Assign) and N(x.targets[0]) == 'self[_spec]' and const(x.value, 'X') is None for x in f.body):
+        ctx.fail(f, f.node, 'wrapper.__init__ no longer resets the cached argument specification (self[_spec] = None): a subclass without its own __init__ (cache_func) then has no spec entry and getargspec / getargs of the decorated function fail or come back empty',
+                 witness='getargs(cache(f)); kwargs_support(cache(f))(a=1)')
     g = ctx.repo.fn('_decorators:wrapper.__call__')
     ctx.count(1, g.where())
     rr = returns_of(g.node)
